@@ -289,6 +289,7 @@ def short_name(d):
     s = re.sub(r"xalanc_\d+_\d+::", "", s)
     s = re.sub(r"xercesc_\d+_\d+::", "xercesc::", s)
     s = re.sub(r"\b\w+Allocator\b", "*Allocator", s)        # the ~40 arena allocator wrappers are one pattern
+    s = re.sub(r"\bXalanEXSLT\w+FunctionsInstaller\b", "XalanEXSLT*FunctionsInstaller", s)
     return s
 
 
@@ -302,9 +303,44 @@ def signature(frames, depth=3):
     return " < ".join(lib[:depth]) if lib else "(no library frame)"
 
 
-def terminate_key(ev):
+def terminate_key(ev, fail=None):
     kind = "terminate" if ev.get("kind") == "std::terminate" else ev.get("kind", "?")
+    lib = library_frames(ev.get("frames", []))
+    if not lib and fail:          # the crash left no usable stack: name the refused request's call site instead
+        fl = library_frames(fail.get("frames", []))
+        arena = [i for i, f in enumerate(fl) if re.match(r"\*Allocator::create\w*$", f)]
+        if arena:                 # ... the object under construction in an arena block, and who asked for it
+            return "%s (stack lost) after refusal inside: %s" % (kind, " < ".join(fl[arena[0]:arena[0] + 2]))
+        return "%s (stack lost) after refusal at: %s" % (kind, " < ".join(fl[:3]))
     return "%s: %s" % (kind, signature(ev.get("frames", [])))
+
+
+INIT_COMPONENT = re.compile(r"(Init::|EnsureFunctionsInstallation::|^XalanTransformer::initialize$)")
+
+
+def classify(events, rj):
+    """semantic class of a rejected execution, or None (then it is a violation whatever the lists say).
+    - the refused request fell inside XalanTransformer::initialize(): the class is the initialisation stage that was
+      interrupted (whatever the later symptom: Probe fails, discarded manager used again, crash);
+    - std::terminate / fatal signal: the call site, i.e. the top 3 library frames of the stack that terminated."""
+    call, fail, failcall = None, None, None
+    for e in events:
+        t = e.get("e")
+        if t == "Call":
+            call = e["api"]
+        elif t in ("ApiReturn", "DestroyTransformer", "Shutdown"):
+            call = None
+        elif t == "Fail":
+            fail, failcall = e, call
+    sym = rj["msg"].split(":")[0]
+    if failcall == "initialize" and sym in ("PROBE", "PROTOCOL", "TERMINATE"):
+        lib = library_frames(fail.get("frames", []))
+        comp = [f for f in lib if INIT_COMPONENT.search(f)]
+        return "init-interrupted: " + (comp[0] if comp else "XalanTransformer::initialize")
+    ev = events[rj["line"]] if rj["line"] < len(events) else {}
+    if sym == "TERMINATE" and ev.get("e") == "Terminate":
+        return terminate_key(ev, fail)
+    return None
 
 
 # ------------------------------------------------------------------------------------------- run
@@ -400,11 +436,9 @@ def run(res, tier, seed):
             rj = rejects[i]
             events = vlib.read_ndjson(p)
             cut = events[:rj["line"] + 1]
-            key = None
-            if rj["msg"].startswith("TERMINATE") and events[rj["line"]].get("e") == "Terminate":
-                key = terminate_key(events[rj["line"]])
-                if build == "hooks":
-                    hooks_terminated[c["scenario"]].add(c["k"])
+            key = classify(events, rj)
+            if build == "hooks" and key:
+                hooks_terminated[c["scenario"]].add(c["k"])
             if key and key in known:
                 res.known(known[key]); stats["terminate_known"] += 1; ps["known"] += 1
                 res.notes.setdefault("known_classes_seen", {}).setdefault(key, 0)
@@ -412,9 +446,12 @@ def run(res, tier, seed):
             else:
                 ps["violations"] += 1
                 if key:
-                    u = res.notes.setdefault("unlisted_terminate_classes", {}).setdefault(key, {"n": 0, "first": [c["scenario"], c["k"], build]})
+                    u = res.notes.setdefault("unlisted_classes", {}).setdefault(key, {"n": 0, "first": [c["scenario"], c["k"], build]})
                     u["n"] += 1
-                what = rj["msg"][:400] + ((" | call site " + key) if key else "")
+                else:
+                    o = res.notes.setdefault("other_rejections", {}).setdefault(re.sub(r"\d+", "#", rj["msg"])[:120], {"n": 0, "first": [c["scenario"], c["k"], build]})
+                    o["n"] += 1
+                what = rj["msg"][:400] + ((" | class " + key) if key else "")
                 candidates.append((what, cut, c, build, mode))
 
     # counting runs are executions too
@@ -520,9 +557,9 @@ def replay(path):
         evs = vlib.read_ndjson(paths[0])
         for i, r in rej.items():
             print("REJECTED scenario=%s k=%s line %d: %s" % (c["scenario"], c["k"], r["line"], r["msg"]))
-            ev = evs[r["line"]]
-            if ev.get("e") == "Terminate":
-                print("  call site: " + terminate_key(ev))
+            key = classify(evs, r)
+            if key:
+                print("  class: " + key)
         return 1 if rej else 0
     for e in events:
         e.pop("case", None)
